@@ -5,6 +5,7 @@
    OCaml native ints in 2^30 limbs (no bignum library is needed: values are built with the
    extracted Z.add / Z.mul themselves). *)
 open Model
+type string = Stdlib.String.t
 
 let rec pos_of_int (n : int) : positive =
   if n = 1 then XH
